@@ -4435,6 +4435,8 @@ MANIFEST = {
             '(their invariant, freshness and frame are proved). Genuine defects found and fixed in /repo: '
             'atoms_prop(\'atype\', index, value, scale=True) stored atom types < 1 (4a5d993, by the proof attempt); '
             'prop_atype(key, vector, atype=t) on a new key made the value itself the column (778419b, round 3).',
-    'technique': 'Lean 4 theorems over a hand-written two-layer model + differential correspondence on histories + '
+    'technique': 'Lean 4 theorems over a hand-written two-layer model whose branch decisions, defaults, guards and reserved keys '
+                 'are proved equal to definitions regenerated from Atoms.py / System.py with ast on every run '
+                 '(Generated/AtomsSource.lean, gen_..._eq_model) + differential correspondence on histories + '
                  'independent record-per-atom oracle on the real code',
 }
